@@ -336,16 +336,16 @@ class Gen(object):
             if n == 0:
                 self.alias_hot = [sid, a]
             return
-        if r < 0.91:
+        if r < 0.90:
             return self.op("tp.strftime", [a], [rng.choice(STRF)],
                            client=client)
-        if r < 0.93:
+        if r < 0.91:
             b = self.pick("tp")
             return self.op("tp.get_time_zone_offset", [a, b or a],
                            result="dur", client=client, mag=5)
-        if r < 0.94:
+        if r < 0.915:
             return self.op("tp.get", [a], ["year"], client=client)
-        if r < 0.95 and not ma.get("trunc"):
+        if r < 0.96 and not ma.get("trunc"):
             # values handed to the operator / dumper layer
             which = rng.choice(["shift", "diff", "format", "reparse"])
             if which == "shift":
@@ -360,11 +360,15 @@ class Gen(object):
                 return self.op("tp.dto_diff", [a, b], result="dur",
                                client=client, mag=mag)
             if which == "format":
-                return self.op("tp.dto_format", [a], [rng.choice(STRF)],
-                               client=client)
+                # half of the time a directive only the datetime fallback of
+                # DateTimeOperator knows
+                fmt = rng.choice(STRF) if rng.random() < 0.5 else rng.choice(
+                    ["%a %b %d %H:%M:%S %Y", "%A %d %B %Y", "%y%m%d %I%p",
+                     "%c"])
+                return self.op("tp.dto_format", [a], [fmt], client=client)
             return self.op("tp.reparse", [a], result="tp", client=client,
                            **self.tp_meta(a, safe=False))
-        if r < 0.97 and not ma.get("trunc") and ma.get("safe"):
+        if r < 0.98 and not ma.get("trunc") and ma.get("safe"):
             kw = rng.choice([{"hour_of_day": 6}, {"minute_of_hour": 30},
                              {"day_of_month": 15}, {"day_of_week": 3},
                              {"day_of_year": 45}, {"month_of_year": 3},
